@@ -6,7 +6,7 @@ cd /repo
 git apply --check /verif/fixes/$name.diff
 git apply /verif/fixes/$name.diff
 make -j8 >/tmp/fix_mk.log 2>&1 || { echo BUILD FAILED; tail -20 /tmp/fix_mk.log; git checkout -- .; exit 1; }
-make check -j8 >/tmp/fix_mc.log 2>&1 || true
+unshare -n sh -c "ip link set lo up; make check -j8" >/tmp/fix_mc.log 2>&1 || true
 f=$(grep -E "^# (FAIL|ERROR):" /tmp/fix_mc.log | awk '{s+=$3} END {print s}')
 p=$(grep -E "^# PASS:" /tmp/fix_mc.log | awk '{s+=$3} END {print s}')
 echo "suite: pass=$p fail+error=$f"
